@@ -75,6 +75,10 @@ pub static mut FOREIGN_REAPER: bool = false; // zombies may be reaped by someone
 pub static mut WAITPID_CALLS: u32 = 0;
 /// a waitpid of this Popen was answered ECHILD (child reaped by someone else)
 pub static mut ECHILD_SEEN: bool = false;
+/// fault injection: a blocking waitpid() on a running child may be interrupted by a
+/// signal handler (EINTR); armed by a harness around the call under test only
+pub static mut WAIT_EINTR_ARMED: bool = false;
+pub static mut EINTR_INJECTED: bool = false;
 pub static mut WAITPID_BLOCKING_CALLS: u32 = 0;
 pub static mut KILL_CALLS: u32 = 0;
 pub static mut LAST_KILL_PID: pid_t = 0;
@@ -98,6 +102,8 @@ pub unsafe fn reset() {
     FOREIGN_REAPER = false;
     WAITPID_CALLS = 0;
     ECHILD_SEEN = false;
+    WAIT_EINTR_ARMED = false;
+    EINTR_INJECTED = false;
     WAITPID_BLOCKING_CALLS = 0;
     KILL_CALLS = 0;
     KILL_RESULT_ERRNO = 0;
@@ -753,6 +759,12 @@ pub unsafe extern "C" fn waitpid(pid: pid_t, status: *mut c_int, flags: c_int) -
                 return 0;
             }
             WAITPID_BLOCKING_CALLS += 1;
+            if WAIT_EINTR_ARMED && !EINTR_INJECTED && kani::any() {
+                // a signal handler installed without SA_RESTART ran in this thread
+                // while the child is still running
+                EINTR_INJECTED = true;
+                return fail(libc::EINTR);
+            }
             if let Some(f) = AT_BLOCKING_WAIT {
                 f(k);
             }
@@ -773,6 +785,19 @@ pub unsafe extern "C" fn waitpid(pid: pid_t, status: *mut c_int, flags: c_int) -
         }
         KidSt::Unused => fail(libc::ECHILD),
     }
+}
+
+/// Signalling a process group reaches processes other than the child: C10
+/// allows exactly kill(child pid, sig).
+#[no_mangle]
+pub unsafe extern "C" fn killpg(pgrp: pid_t, sig: c_int) -> c_int {
+    on_syscall();
+    world_step();
+    KILL_CALLS += 1;
+    LAST_KILL_PID = -pgrp;
+    LAST_KILL_SIG = sig;
+    vcheck!(C10, false, "C10/only-the-child: killpg() issued: the signal goes to a whole process group, not to exactly the child's pid");
+    0
 }
 
 #[no_mangle]
